@@ -33,6 +33,7 @@ type Options struct {
 	Partitions        uint64
 	TableSize         int  // bytes; 0 = default (1 MiB)
 	Manual            bool // TRUE: push/balancer/janitor/compaction timers at one hour, the driver calls Sync()
+	Housekeeping      time.Duration // > 0: the janitor (empty fragments) and the compaction trigger run at this interval, also in manual mode
 	DMaps             func(*config.DMaps)
 	Tweak             func(*config.Config)
 	LogTo             io.Writer
@@ -168,6 +169,10 @@ func (c *Cluster) newConfig() *config.Config {
 	} else {
 		cfg.DMaps.CheckEmptyFragmentsInterval = 300 * time.Millisecond
 		cfg.DMaps.TriggerCompactionInterval = 200 * time.Millisecond
+	}
+	if o.Housekeeping > 0 {
+		cfg.DMaps.CheckEmptyFragmentsInterval = o.Housekeeping
+		cfg.DMaps.TriggerCompactionInterval = o.Housekeeping
 	}
 	if o.TableSize > 0 {
 		cfg.DMaps.Engine = config.NewEngine()
